@@ -7,27 +7,10 @@
    within-chunk covariance on its k retained directions (L C L^T = I_k): "also after reduction to n_components". *)
 From Coq Require Import String.
 From Coq Require Import List Arith Bool Reals Lra Lia ZArith.
-From ML Require Import Ops Vec NP VecR MatR LinAlg NPNum CovProof.
+From ML Require Import Ops Vec NP VecR MatR LinAlg NPNum CovProof MatAction.
 From MLgen Require Import Src_rca.
 Import ListNotations.
 Open Scope R_scope.
-
-(* (P Q) x = P (Q x): Q is n x m with n > 0, the rows of P have length n *)
-Lemma mmulg_action m (P Q : Rm) (x : Rv) : Q <> [] -> Forall (wfvR m) Q -> Forall (wfvR (length Q)) P -> wfvR m x ->
-  mvmulR (@mmulg ROps P Q) x = mvmulR P (mvmulR Q x).
-Proof.
-  intros Hne HQ HP Hx. unfold mmulg. unfold mvmul at 1. rewrite map_map. unfold mvmul at 2.
-  apply map_ext_in. intros r Hr. rewrite Forall_forall in HP. specialize (HP r Hr).
-  rewrite (transp_is_fuel m Q Hne HQ).
-  assert (E: map (vdotR r) (transp_fuelR m Q) = mvmulR (transp_fuelR m Q) r).
-  { unfold mvmul. apply map_ext. intro c. apply vdot_comm. }
-  rewrite E. apply (transp_fuel_adjoint m Q r x Hne HQ Hx HP).
-Qed.
-
-Lemma transp_rows_wf k (A : Rm) : A <> [] -> Forall (wfvR k) A -> Forall (wfvR (length A)) (transpR A) /\ length (transpR A) = k.
-Proof.
-  intros Hne HA. rewrite (transp_is_fuel k A Hne HA). split; [apply transp_fuel_rows | apply transp_fuel_length]; auto.
-Qed.
 
 (* rows of W A^T *)
 Lemma dot_mt_rows (W A : Rm) : @nn_dot_mt ROps W A = map (fun w => mvmulR A w) W.
